@@ -81,8 +81,35 @@ def normalize_sweep(tier, seed):
             msg = f"{type(e).__name__}: {e}"
         if msg:
             fails.append(rtc.Failure("normalize_chunks", {"chunks": spec, "shape": shape, "dtype": dtype, "limit": limit}, "ensures", "C23-auto-within-byte-limit", msg))
+    # automatic chunks that start from previous_chunks (what x.rechunk('auto') does): the documented slack is the factor
+    # array.chunk-size-tolerance (1.25) on the whole block, not per dimension
+    import dask.config as _cfg
+    tol = _cfg.get("array.chunk-size-tolerance")
+    pats = [(6, 6, 6, 6, 6, 12), (4,) * 8 + (20,), (5,) * 10, (7, 3) * 4, (10,), (1,) * 12, (3, 3, 3, 9, 9), (8, 8, 8, 2), (2,) * 20 + (30,), (16,) * 4]
+    prevs = [(p_,) for p_ in pats] + list(itertools.product(pats, repeat=2))[:: (3 if tier == "quick" else 1)] + [tuple(rnd.choice(pats) for _ in range(3)) for _ in range(15 if tier == "quick" else 80)]
+    nprev = 0
+    for prev in prevs:
+        shape = tuple(sum(p_) for p_ in prev)
+        for dtype in ("u1", "f8"):
+            item = np.dtype(dtype).itemsize
+            base = sorted({item * math.prod(x_) for x_ in itertools.product(*[(1, 2, 3, 5, 8, 10, 13, 20) for _ in prev])})
+            for limit in sorted(set(base + [b_ + item for b_ in base]))[: (25 if tier == "quick" else 60)]:
+                cases += 1
+                nprev += 1
+                try:
+                    res = normalize_chunks("auto", shape, dtype=dtype, limit=limit, previous_chunks=prev)
+                    msg = check_normalized(res, shape)
+                    if not msg:
+                        big = math.prod(max(c) for c in res) * item
+                        if big > max(limit * tol, item):
+                            msg = f"largest block is {big} bytes, limit {limit} (tolerance x{tol}, itemsize {item}): {res}"
+                except Exception as e:  # noqa
+                    msg = f"{type(e).__name__}: {e}"
+                if msg:
+                    fails.append(rtc.Failure("normalize_chunks", {"chunks": "auto", "shape": shape, "dtype": dtype, "limit": limit, "previous_chunks": prev}, "ensures", "C23-auto-within-byte-limit", msg))
+                    break
     return {"function": "dask/array/core.py:normalize_chunks (real code; bounded only)", "bounded": True,
-            "bound": {"1-D sizes": list(dims)[-1], "2-D shapes": "0..4 x 0..4", "auto": f"{len(autos)} (dtype, limit, shape, spec) combinations"},
+            "bound": {"1-D sizes": list(dims)[-1], "2-D shapes": "0..4 x 0..4", "auto": f"{len(autos)} (dtype, limit, shape, spec) combinations", "auto with previous_chunks": f"{nprev} (previous chunks of 1-3 dimensions from {len(pats)} patterns, dtype, limit) combinations, slack x{tol}"},
             "cases": cases, "distinct_nontrivial": cases, "failures_found": len(fails), "wall_s": round(time.time() - t0, 2),
             "samples": [{"native_case": {"chunks": "auto", "shape": [100], "dtype": "f8", "limit": 20}}], "failures": fails[:5]}
 
